@@ -309,6 +309,44 @@ def check_iface(spec):
     return ok(outcome=[exp, None], nontrivial=len(ms) > 1 or isinstance(shots, list))
 
 
+
+# ------------------------------------------------------------------------------------------- gradient-transform level
+TSHOTS = [None, 7, [7, 3], [7, 7], [7, 7, 3], [3, 7, 7], [7, 3, 7], [7, 7, 7]]  # repeated entries: num_copies != len(shot_vector)
+TRANSFORMS = ["param_shift", "finite_diff", "spsa_grad", "hadamard_grad"]
+
+
+def check_transform(spec):
+    """Tape level: a gradient transform applied to one tape, its tapes executed on the device, the post-processing applied. The Jacobian nesting
+    must be the request's (shot copies -> measurements -> trainable parameters -> measurement shape), whichever transform produced it."""
+    import pennylane as qp
+
+    ms, shots, npar, tname = spec["meas"], spec["shots"], spec["npar"], spec["transform"]
+    ops = [qp.RX(0.4, 0), qp.RY(-0.7, 1), qp.CNOT([0, 1]), qp.RZ(0.3, 1)][: (3 if npar < 3 else 4)]
+    with qp.queuing.AnnotatedQueue() as q:
+        mps = [build_meas(m) for m in ms]
+    tape = qp.tape.QuantumScript(ops, mps, shots=shots_arg(shots), trainable_params=list(range(npar)))
+    dev = qp.device("default.qubit", seed=11)
+    tr = getattr(qp.gradients, tname)
+    kw = {"sampler_rng": np.random.default_rng(5)} if tname == "spsa_grad" else {"aux_wire": 2} if tname == "hadamard_grad" else {}
+    try:
+        tapes, fn = tr(tape, **kw)
+        jac = fn(dev.execute(tapes))
+    except (qp.exceptions.DeviceError, qp.exceptions.QuantumFunctionError, NotImplementedError) as e:
+        return skip(f"{tname}: {type(e).__name__}: {str(e)[:60]}")
+    except ValueError as e:
+        if "gradient of variances" in str(e):  # documented: the Hadamard test gradient does not differentiate variances
+            return skip(f"{tname}: ValueError(variances)")
+        raise
+    res = tape_structure(ms, shots, None, "default.qubit")
+    exp = jac_structure(res, [()] * npar, npar > 1)
+    obs = observe(jac)
+    feats = ("analytic" if shots is None else "shots" if isinstance(shots, int) else
+             "shotvector-repeated" if len(set(shots)) < len(shots) else "shotvector")
+    if obs != exp:
+        path, a, b = first_diff(obs, exp)
+        return bad(f"transform-jacobian:{tname}:{feats}:{'multi' if len(ms) > 1 else 'single'}-meas:{min(npar, 2)}par", obs, exp, at=path, got=a, want=b)
+    return ok(outcome=exp, nontrivial=npar > 1 or len(ms) > 1 or isinstance(shots, list))
+
 # ------------------------------------------------------------------------------------------- enumeration
 def meas_lists(maxlen, shots):
     letters = [m for m in ALPHA if not (shots is None and m in NEEDS_SHOTS) and not (shots is not None and m in ANALYTIC_ONLY)]
@@ -379,7 +417,15 @@ def run(ctx):
                 for Bv in (1, 3):
                     ispecs.append({"dev": dev, "iface": iface, "diff": "parameter-shift", "shots": None, "meas": ms, "nargs": 1, "Bconst": Bv})
     ctx.enumerate(ispecs, fn="check_iface", axis="interface-level", chunk=6, start="spawn")
-    ctx.coverage["alphabet"] = {"measurements": ALPHA, "shots": SHOTS, "broadcast": [None, 1, 3], "tapes": [1, 2], "devices": DEVICES,
+    tspecs = []
+    tl = [["expval"], ["var"], ["probs1"], ["probs2"], ["expval", "probs2"], ["probs1", "expval"], ["expval", "var"], ["expval", "expval", "probs1"]]
+    for tname in TRANSFORMS:
+        for shots in TSHOTS:
+            for npar in (1, 2, 3):
+                for ms in tl:
+                    tspecs.append({"transform": tname, "shots": shots, "npar": npar, "meas": ms})
+    ctx.enumerate(tspecs, fn="check_transform", axis="gradient-transform-level", chunk=24)
+    ctx.coverage["alphabet"] = {"gradient_transforms": TRANSFORMS, "transform_level_shots": TSHOTS, "measurements": ALPHA, "shots": SHOTS, "broadcast": [None, 1, 3], "tapes": [1, 2], "devices": DEVICES,
                                 "interfaces": ["numpy", "autograd", "jax", "jax-jit", "torch"],
                                 "diff_methods": [None, "backprop", "parameter-shift", "adjoint", "finite-diff"], "trainable_arg_shapes": [[], [2]]}
     ctx.coverage["bound"] = {"max_list_length_device_level": 3, "max_list_length_interface_level": 2, "wires": NW}
